@@ -719,6 +719,13 @@ public:
     try {
       static_cast<Converter&>(cvt).PropagateResult(
             GetConstraint(i), lb, ub, ctx);
+    } catch (const mp::Error& err) {      // keep the result code,
+      MP_RAISE_WITH_CODE(err.exit_code(), // e.g., for infeasibility
+                         Converter::GetTypeName() +
+                             std::string(": propagating result for constraint ") +
+                             std::to_string(i) + " of type '" +
+                             Constraint::GetTypeName() +
+                             "':  " + err.what());
     } catch (const std::exception& exc) {
       MP_RAISE(Converter::GetTypeName() +
                              std::string(": propagating result for constraint ") +
